@@ -149,6 +149,11 @@ def run_tlc(module_path, cfg=None, workers=8, simulate=None, depth=None, tseed=N
     os.makedirs(meta, exist_ok=True)
     jopts = f"-Xss1g -Xmx{xmx} -XX:+UseParallelGC -XX:ParallelGCThreads=4"
     workers = min(int(workers), int(os.environ.get("VERIF_TLC_WORKERS", "8")))
+    try:
+        if os.getloadavg()[0] > 24:      # machine oversubscribed (other checks / builders running): do not add to it
+            workers = min(workers, 3)
+    except OSError:
+        pass
     if dfs:
         jopts += " -Dtlc2.tool.queue.IStateQueue=StateDeque"
     # every directory under spec/ is on the module search path via TLA-Library
